@@ -221,7 +221,7 @@ func init() {
 			if iv.typ == nil {
 				return e.ctx.False, nil
 			}
-			m := e.eng.prog.LookupMethod(iv.typ, nil, "Unwrap")
+			m := e.eng.lookupMethod(iv.typ, nil, "Unwrap")
 			if m == nil {
 				return e.ctx.False, nil
 			}
@@ -400,7 +400,7 @@ func (e *Exec) evalStringers(v Value, caller *Frame) *GoPanic {
 			continue
 		}
 		for _, name := range []string{"Error", "String"} {
-			m := e.eng.prog.LookupMethod(iv.typ, nil, name)
+			m := e.eng.lookupMethod(iv.typ, nil, name)
 			if m == nil || m.Signature.Params().Len() != 0 || m.Signature.Results().Len() != 1 {
 				continue
 			}
